@@ -22,21 +22,9 @@ ToMC(st) == [n |-> st.nseat,
              sm |-> SmFromP(st)]
 JoinRecsC(j) == [i \in 1..Len(j) |-> [id |-> j[i][1], seat |-> j[i][2], chips |-> j[i][3]]]
 
-(* ---- table membership ---- *)
-MOut(st, o) ==
-  CASE o.op = "reserve" -> ReserveOutcomes(st, o.id, o.seat, o.chips)
-    [] o.op = "leave" -> {LeaveF(st, o.ids)}
-    [] o.op = "update" -> UpdateOutcomes(st, JoinRecsC(o.joins), o.ids)
-(* a partial state is compatible with the final one when every player of it that is still there at the end sits where he sits at the end *)
-(* (a pruning of the search only; players that some call of the batch removes may sit elsewhere when they come back) *)
-Leavers(ops) == UNION {{ops[i].ids[j] : j \in 1..Len(ops[i].ids)} : i \in {x \in 1..Len(ops) : ops[x].op \in {"leave", "update"}}}
-MCompat(st, post, ops) == \A i \in 1..Len(st.players) :
-    (st.players[i].id \in MIds(post) /\ st.players[i].id \notin Leavers(ops)) => post.players[MIdx(post, st.players[i].id)].seat = st.players[i].seat
-RECURSIVE MLin(_, _, _, _)
-MLin(st, rem, ops, post) ==
-  IF rem = {} THEN st = post
-  ELSE \E i \in rem : \E o \in MOut(st, ops[i]) :
-         o.res = ops[i].res /\ MCompat(o.st, post, ops) /\ MLin(o.st, rem \ {i}, ops, post)
+(* ---- table membership: MOut / MLin of TableMembers over the recorded ops (joins arrive as JSON triples) ---- *)
+OpsC(ops) == [i \in 1..Len(ops) |-> [op |-> ops[i].op, id |-> ops[i].id, seat |-> ops[i].seat, chips |-> ops[i].chips, ids |-> ops[i].ids,
+                                      joins |-> JoinRecsC(ops[i].joins), res |-> ops[i].res]]
 
 (* ---- bare seat manager ---- *)
 SOut(st, o) ==
@@ -61,6 +49,12 @@ ActLin(s, rem, ops, st) ==
          /\ s.ev = "RoundStarted" /\ GameIdxOf(st, ops[i].id) = s.cur /\ ops[i].kind \in s.p[s.cur].allowed
          /\ ActLin(Apply(s, ops[i].kind, ops[i].chips), rem \ {i}, ops, st)
 
+(* the table's own seat map (seat -> position in the list, -1 = empty) against the list *)
+SeatMapOK(st) ==
+  /\ Len(st.seatmap) = st.nseat
+  /\ \A i \in 1..Len(st.players) : st.players[i].seat \in 0..(st.nseat - 1) /\ st.seatmap[st.players[i].seat + 1] = i - 1
+  /\ \A s \in 1..Len(st.seatmap) : st.seatmap[s] # -1 => (st.seatmap[s] \in 0..(Len(st.players) - 1) /\ st.players[st.seatmap[s] + 1].seat = s - 1)
+
 CheckLine(k) ==
   LET t == Trace[k] IN
   \* every call returns, the engine process survives (known finding, open: the table's auto-sit-in machinery -- a ready group
@@ -72,7 +66,8 @@ CheckLine(k) ==
   /\ t.ev = "batch" =>
        LET post == ToMC(t.st) IN
        /\ Clause("C16_consistentAfter", MConsistent(post), "", k)
-       /\ Clause("C16_membersSerializable", MLin(ToMC(t.pre), 1..Len(t.ops), t.ops, post), "", k)
+       /\ Clause("C16_seatMapAgrees", SeatMapOK(t.st), "", k)
+       /\ Clause("C16_membersSerializable", MLin(ToMC(t.pre), 1..Len(t.ops), OpsC(t.ops), post), "", k)
   /\ t.ev = "smbatch" =>
        LET post == SmFromJ(t.smst) IN
        /\ Clause("C16_smNoDoubleBooking", \A s, u \in SeatsOf(post) : (Occ(post, s) /\ Occ(post, u) /\ post.seat[s].id = post.seat[u].id) => s = u, "", k)
